@@ -39,6 +39,7 @@ func cmdVerify(args []string) {
 	keep := fs.Bool("keep", false, "keep smt files")
 	work := fs.String("work", "/verif/.work/dev", "work dir")
 	caseF := fs.String("case", "", "only cases whose label contains this")
+	fs.BoolVar(&coverExits, "cover", false, "add a satisfiability query per normal exit path (vacuity aid)")
 	verbose := fs.Bool("v", false, "verbose")
 	jobs := fs.Int("j", 16, "parallel solver jobs")
 	fs.Parse(args)
